@@ -8,6 +8,8 @@ import tlc
 import au
 
 ASSUME = [
+    "cookie contents: random bytes, in two of three runs ending in a line-feed or carriage-return byte; an over-long file is a valid "
+    "cookie followed by 'x', LF, CR LF or CR",
     "the scripted server computes real HMAC-SHA256 values over the real cookie file, the client's fresh nonce (read off the wire) and "
     "a fresh server nonce; HMAC / hex correctness of the client proof is compared by the harness (argument class 'proof')",
     "cookie files are real temporary files: missing, 31 bytes, 33 bytes, 32 bytes, and 32 bytes under a path that needs \\\" and \\\\ unescaping",
